@@ -28,7 +28,7 @@ def gen_scenario(rng):
         lookup=rng.choice([None, None] + before[:21]),              # a lookup (timeout 3 s) for the peer's / a missing service
         lookup_missing=rng.random() < 0.5,
         queries=sorted(rng.sample(before, rng.choice([0, 1, 2, 3]))),   # peer queries this long before the close (answers waiting in queues)
-        qkinds=[rng.choice(['qm', 'qm', 'qu', 'tc', 'legacy']) for _ in range(3)],
+        qkinds=[rng.choice(['qm', 'qm', 'qu', 'tc', 'legacy', 'tc-legacy', 'tc-qu']) for _ in range(3)],   # (truncated ones are answered 400-500 ms later)
         loopback=rng.random() < 0.5,
         close_twice_gap=rng.choice([0, 1, 1000]),
         mcast=[rng.choice([20, 70, 120]) for _ in range(60)], tcd=[rng.choice([400, 450, 500]) for _ in range(10)],
@@ -110,11 +110,11 @@ def run_scenario(sc):
 
             def query(kind):
                 qid[0] += 1
-                out = DNSOutgoing(const._FLAGS_QR_QUERY | (const._FLAGS_TC if kind == 'tc' else 0), multicast=kind != 'legacy', id_=qid[0])
-                out.add_question(DNSQuestion(TA, const._TYPE_PTR, const._CLASS_IN | (const._CLASS_UNIQUE if kind == 'qu' else 0)))
+                out = DNSOutgoing(const._FLAGS_QR_QUERY | (const._FLAGS_TC if kind.startswith('tc') else 0), multicast='legacy' not in kind, id_=qid[0])
+                out.add_question(DNSQuestion(TA, const._TYPE_PTR, const._CLASS_IN | (const._CLASS_UNIQUE if kind.endswith('qu') else 0)))
                 if svcs:
                     out.add_question(DNSQuestion(svcs[0]['name'], const._TYPE_SRV, const._CLASS_IN))
-                sim.net.inject(a, out.packets()[0], ('10.0.0.2', 40000 if kind == 'legacy' else 5353))
+                sim.net.inject(a, out.packets()[0], ('10.0.0.2', 40000 if 'legacy' in kind else 5353))
             tasks = []
             for (t, what) in events:
                 await sim.sleep_until(t)
